@@ -319,7 +319,9 @@ func wire(c *cmdT) (line string, literal []byte) {
 			its = append(its, "FLAGS")
 		}
 		if c.It.Size {
-			its = append(its, "RFC822.SIZE")
+			// the structural items ride along with the size: what they say is C03's matter (the writers) - here they
+			// must be answered at all, for every message of the catalogue
+			its = append(its, "RFC822.SIZE", "ENVELOPE", "BODYSTRUCTURE", "BODY")
 		}
 		if c.It.Date {
 			its = append(its, "INTERNALDATE")
@@ -776,6 +778,11 @@ func (w *world) normFetch(c *cmdT, un []*vh.Resp) []M {
 			m["size"] = -1
 			if t, ok := it["RFC822.SIZE"]; ok {
 				m["size"] = atoi(t.S)
+			}
+			for _, k := range []string{"ENVELOPE", "BODYSTRUCTURE", "BODY"} {
+				if _, ok := it[k]; !ok {
+					m["size"] = -2 // asked for, not answered
+				}
 			}
 		}
 		if c.It.Date {
